@@ -439,6 +439,7 @@ type Contract struct {
 	CallSiteEns  map[string][]*Clause // callee name -> facts assumed after each call in this function (trusted)
 	CallSiteMods map[string][]*Clause // callee name -> locations havocked at each call in this function (trusted)
 	CloseOnly  []string             // type block: channel fields that are never sent on, only closed
+	FieldWrite map[string][]*Clause // type block: two-state obligations on every store to a field (self, was, now)
 	AssumeAt   []*Clause            // trusted facts assumed right after the statement whose source line contains Label
 	LockAssume []*Clause            // assumed right after every Lock in this function (token arguments); listed as assumptions
 	GhostDefs  [][2]*Clause         // ghost assignments at return: location, value
@@ -457,7 +458,7 @@ var clauseKeywords = map[string]bool{
 	"property": true, "mode": true, "requires": true, "ensures": true, "modifies": true, "reads": true,
 	"loop": true, "assert": true, "pure": true, "inline": true, "trusted": true, "unproved": true,
 	"assume": true, "option": true, "expect": true, "def": true, "unfold": true, "macro": true, "guards": true,
-	"invariant": true, "rely": true, "ghost": true, "replay": true, "package": true, "end": true, "ghostfield": true, "let": true, "callsite": true, "closeonly": true, "lockassume": true, "ghostdef": true, "assumeat": true, "trust-ensures": true,
+	"invariant": true, "rely": true, "ghost": true, "replay": true, "package": true, "end": true, "ghostfield": true, "let": true, "callsite": true, "closeonly": true, "fieldwrite": true, "lockassume": true, "ghostdef": true, "assumeat": true, "trust-ensures": true,
 }
 
 func firstWord(s string) (string, string) {
@@ -672,6 +673,21 @@ func ParseContractFile(path string, pkg string) (*ContractFile, error) {
 			}
 			cl.Label = r[1 : j+1]
 			cur.AssumeAt = append(cur.AssumeAt, cl)
+		case "fieldwrite":
+			// fieldwrite <field> requires <expr over self, was, now> : obligation at every store to that field
+			fld, r2 := firstWord(rest)
+			kw, r3 := firstWord(r2)
+			if kw != "requires" || fld == "" {
+				return nil, fail("fieldwrite <field> requires <expr>")
+			}
+			cl, err := mkClause("fieldwrite", r3, l.line)
+			if err != nil {
+				return nil, err
+			}
+			if cur.FieldWrite == nil {
+				cur.FieldWrite = map[string][]*Clause{}
+			}
+			cur.FieldWrite[fld] = append(cur.FieldWrite[fld], cl)
 		case "closeonly":
 			cur.CloseOnly = append(cur.CloseOnly, strings.Fields(strings.ReplaceAll(rest, ",", " "))...)
 		case "replay":
